@@ -102,7 +102,7 @@ PROPS = {
     },
     "C11": {
         "slices": ["charset", "C11"],
-        "relevant_diff": lambda part, op: part.startswith("DIFF cs-plain") or part.startswith("DIFF leaf"),
+        "relevant_diff": lambda part, op: part.startswith("DIFF cs-") or part.startswith("DIFF leaf"),
         "assumptions": COMMON_ASSUME + ["unicode/utf8.Valid / RuneStart hand-modelled (Charset.utf8Valid)"],
         "trusted_base": ["FromPlain/latin/ascii hand-modelled; boms and textChars regenerated; tie: cs plain ops exhaustive over a byte-class alphabet"],
     },
